@@ -570,7 +570,7 @@ func (dsc *dataStoreCommand) getIds(keyNames ...string) (ids []uint64) {
 		if exists {
 			ids = append(ids, sk.id)
 		} else {
-			ids = append(ids, 0)
+			ids = append(ids, dsc.ds.watchMissingUnlocked(keyName))
 		}
 	}
 	return
